@@ -272,7 +272,7 @@ def kvNat (tok key : String) : Option Nat :=
 def step (c impl : String) : String :=
   if impl.startsWith "PANIC" then specViol s!"the queue panicked: {impl}" else
   if impl.startsWith "SKIPPED" then "SKIP after-timeout" else
-  if impl.startsWith "TIMEOUT a scripted" then specViol s!"{impl}" else
+  if impl.startsWith "TIMEOUT a scripted" ∨ impl.startsWith "TIMEOUT the case" then specViol s!"{impl}" else
   match fields c with
   | "mq" :: cap :: ext :: ops =>
     match natOf cap, intOf ext with
